@@ -95,7 +95,7 @@ def body_factory(tier, seed):
 
 
 def run(rep, tier, seed):
-    return C.standard_run(rep, PROP, ["Model/CaseNet.vo"], body_factory(tier, seed), rule=(
+    return C.standard_run(rep, PROP, ["Model/CaseNet.vo"], [body_factory(tier, seed + 1000 * i) for i in range(3 if tier == "thorough" else 1)], rule=(
         "for every one of the 103 (version, action) pairs: schema-valid requests and responses (more of them for the three "
         "decimal-validated 1.6 messages, in both directions) sent by A to B, whose handler builds call.<Action>(**kwargs) from "
         "exactly the keywords it received and call()s C, returning C's result object as its own; three real endpoints, four "
